@@ -1,6 +1,7 @@
 (* ---- shared by drv_C05.ml / drv_C06.ml: the retrieval script language (same text as harness/retr_common.hpp) ----
    reset
    arr <aid> <rank> <shape..> <dim>*rank       dim = S <dt> <off|-> <unit|-> | R <k> <t1..tk> <unit|-> | L <nlabels> | F <nrows>
+                                               | A <k> <t1..tk> <unit|->  (rank 1: alias range dimension = DRange over the array's own data)
    tag <np> <pos..> <ne> <ext..> <nu> <units..>                     (ne = 0: no extent)
    ref <aid> | feat <aid> <tagged|untagged|indexed>                 (attached to the tag AND the multi-tag of the case)
    mtag <rank> <shape..> <n> <posdata..> <ne> <extdata..> <nu> <units..>   (ne = 0: no extents array)
@@ -45,6 +46,14 @@ let parse_dim toks = match toks with
     (match drop k rest with
      | u :: rest' -> (DRange (ticks, unit_opt u), rest')
      | [] -> failwith "bad R")
+  | "A" :: k :: rest ->
+    (* alias range dimension of a 1-D array: a range dimension whose ticks are the array's own data and whose unit is
+       the array's unit (RangeDimensionHDF5::redirectGroup) *)
+    let k = oint_of_string k in
+    let ticks = OLst.map dec_dbl (take k rest) in
+    (match drop k rest with
+     | u :: rest' -> (DRange (ticks, unit_opt u), rest')
+     | [] -> failwith "bad A")
   | "L" :: n :: rest -> (DSet (z_of_string n), rest)
   | "F" :: n :: rest -> (DFrame (z_of_string n), rest)
   | _ -> failwith "bad dim"
